@@ -83,11 +83,16 @@ class budget(object):
         return False
 
 
+class WatchdogExpired(BaseException):
+    """the wall-clock budget of the whole check ran out: not an AnalysisError, so that no rule can record it as one undecided
+    instance and carry on without a watchdog"""
+
+
 def _watchdog(seconds):
     import signal
 
     def on_alarm(signum, frame):
-        raise AnalysisError('time budget of %d s exceeded (symbolic expression growth?)' % seconds)
+        raise WatchdogExpired('time budget of %d s for the whole check exceeded (symbolic expression growth?)' % seconds)
     try:
         signal.signal(signal.SIGALRM, on_alarm)
         signal.alarm(seconds)
@@ -106,7 +111,7 @@ def run_check(prop, tier, repo_root, write_evidence=True, selfcheck=True):
             variants.self_validate(prop, tier, repo_root, rep, seed)
         code, unlisted = rep.finish(write_evidence=write_evidence)
         return code
-    except AnalysisError as exc:
+    except (AnalysisError, WatchdogExpired) as exc:
         print('ANALYSIS-ERROR %s: %s' % (prop, exc))
         return 2
     except RecursionError as exc:
